@@ -40,6 +40,10 @@ vars == <<p, hist, cache, conts, optlr, ckpt, decl, fresh>>
 MaxZ(x) == IF x > 0 THEN x ELSE 0
 TrainOf(e, v) == ((v * 3 + e) % 5) + 1      \* training metric fed alongside (no effect on decisions)
 UserOf(e, v) == e * 7 + v                   \* user-defined entry fed alongside
+\* a user-defined entry of type str, declared BEFORE the numeric ones: values that a comma-separated
+\* file has to quote (the separator, the quote character, blanks at either end, the empty string)
+UserStrs == << "plain", "a,b", "say \"hi\"", "x,\"y\",z", " lead", "trail ", ",", "\"", "", "7", "1,5" >>
+UserStrOf(e, v) == UserStrs[((e * 7 + v) % Len(UserStrs)) + 1]
 
 Row0 == [epoch |-> 0, esres |-> p.B, espat |-> p.P, rres |-> p.RB, rpat |-> p.RP,
          lrk |-> 0, val |-> INF, trn |-> INF, user |-> 0]
@@ -52,9 +56,11 @@ FromHist(h) == [e \in 0..Len(h) |-> IF e = 0 THEN Row0 ELSE h[e]]
 (***************************************************************************)
 NotNegligible(lrk) == lrk < p.EK        \* old_lr - new_lr > epsilon  (EK reductions are not negligible)
 
-Update(c, v) ==
-  LET e == Len(hist) + 1
-      prev == c[e - 1]
+\* the update for a given epoch e (the documented `epoch` argument): everything is read from the
+\* rows of the epochs BEFORE e -- rows of e and later epochs (left over from a run that was rolled
+\* back) play no part
+UpdateAt(c, e, v) ==
+  LET prev == c[e - 1]
       esE == e - p.P + prev.espat - 1
       esv == c[esE].val
       rE == e - p.RP + prev.rpat - 1
@@ -72,6 +78,8 @@ Update(c, v) ==
   IN CHOOSE row \in {[epoch |-> e, esres |-> es1.res, espat |-> es1.pat, rres |-> r1.res, rpat |-> r1.pat,
                        lrk |-> r1.lrk, val |-> v, trn |-> TrainOf(e, v), user |-> UserOf(e, v)] :
                       es1 \in {ES}, r1 \in {RL}} : TRUE
+\* epoch inferred: one after the last epoch in the history
+Update(c, v) == UpdateAt(c, Len(hist) + 1, v)
 
 ContOf(row) == /\ (p.ne = 0 \/ row.epoch < p.ne)
                /\ ~(p.TH > 0 /\ row.espat = 0)
@@ -79,24 +87,31 @@ ContOf(row) == /\ (p.ne = 0 \/ row.epoch < p.ne)
 (***************************************************************************)
 (* declarative rules, from the property text                               *)
 (***************************************************************************)
-ValAt(e) == IF e = 0 THEN INF ELSE hist[e].val
-Improved(ref, v, th) == MaxZ(ValAt(ref) - v) >= th        \* th = 0: always "improved"
+ValIn(h, e) == IF e = 0 THEN INF ELSE h[e].val
+ImprovedIn(h, ref, v, th) == MaxZ(ValIn(h, ref) - v) >= th        \* th = 0: always "improved"
+ValAt(e) == ValIn(hist, e)
+Improved(ref, v, th) == ImprovedIn(hist, ref, v, th)
 
-DeclUpdate(v) ==
-  LET e == Len(hist) + 1
-      inburn == e <= p.B
-      esimp == Improved(decl.esref, v, p.TH)
+\* one step of the tracker: d = tracker after the epochs before e (whose metrics are h[1..e-1].val)
+DeclStep(d, h, e, v) ==
+  LET inburn == e <= p.B
+      esimp == ImprovedIn(h, d.esref, v, p.TH)
       rinburn == e <= p.RB
-      rincool == decl.rcool > 0
-      rimp == Improved(decl.rref, v, p.RTH)
-      fire == ~rinburn /\ ~rincool /\ ~rimp /\ decl.rcnt + 1 = p.RP
-  IN [esref |-> IF inburn \/ esimp THEN e ELSE decl.esref,
-      escnt |-> IF inburn \/ esimp THEN 0 ELSE decl.escnt + 1,
-      rref  |-> IF rinburn \/ rincool \/ rimp \/ fire THEN e ELSE decl.rref,
-      rcnt  |-> IF rinburn \/ rincool \/ rimp \/ fire THEN 0 ELSE decl.rcnt + 1,
-      rcool |-> IF rinburn THEN 0 ELSE IF rincool THEN decl.rcool - 1 ELSE IF fire THEN p.RC ELSE 0,
-      lrk   |-> IF fire /\ NotNegligible(decl.lrk) THEN decl.lrk + 1 ELSE decl.lrk,
+      rincool == d.rcool > 0
+      rimp == ImprovedIn(h, d.rref, v, p.RTH)
+      fire == ~rinburn /\ ~rincool /\ ~rimp /\ d.rcnt + 1 = p.RP
+  IN [esref |-> IF inburn \/ esimp THEN e ELSE d.esref,
+      escnt |-> IF inburn \/ esimp THEN 0 ELSE d.escnt + 1,
+      rref  |-> IF rinburn \/ rincool \/ rimp \/ fire THEN e ELSE d.rref,
+      rcnt  |-> IF rinburn \/ rincool \/ rimp \/ fire THEN 0 ELSE d.rcnt + 1,
+      rcool |-> IF rinburn THEN 0 ELSE IF rincool THEN d.rcool - 1 ELSE IF fire THEN p.RC ELSE 0,
+      lrk   |-> IF fire /\ NotNegligible(d.lrk) THEN d.lrk + 1 ELSE d.lrk,
       fired |-> fire]
+DeclUpdate(v) == DeclStep(decl, hist, Len(hist) + 1, v)
+Decl0 == [esref |-> 0, escnt |-> 0, rref |-> 0, rcnt |-> 0, rcool |-> 0, lrk |-> 0, fired |-> FALSE]
+\* the tracker recomputed from nothing over the chain of epochs 1..n of h
+RECURSIVE DeclOver(_, _)
+DeclOver(h, n) == IF n = 0 THEN Decl0 ELSE DeclStep(DeclOver(h, n - 1), h, n, h[n].val)
 DeclStop == p.TH > 0 /\ decl.escnt >= p.P
 
 (***************************************************************************)
@@ -109,7 +124,7 @@ Init ==
   /\ conts = <<>>
   /\ optlr = 0
   /\ ckpt = [e \in {} |-> 0]
-  /\ decl = [esref |-> 0, escnt |-> 0, rref |-> 0, rcnt |-> 0, rcool |-> 0, lrk |-> 0, fired |-> FALSE]
+  /\ decl = Decl0
   /\ fresh = TRUE
 
 Stopped == Len(conts) > 0 /\ conts[Len(conts)] = FALSE
@@ -151,6 +166,8 @@ ReduceOnlyOnFire ==
     LET prevk == IF Len(hist) = 1 THEN 0 ELSE hist[Len(hist) - 1].lrk
     IN (LastRow.lrk # prevk) <=> (decl.fired /\ NotNegligible(prevk))
 OptimizerHasRate == Len(hist) > 0 => optlr = LastRow.lrk
+\* lemma (used by TrainCtlRb): the tracker carried along equals the tracker recomputed over the whole chain
+DeclIsChain == decl = DeclOver(hist, Len(hist))
 \* a controller rebuilt from the files has the memory of the uninterrupted one
 RestartTransparent == cache = FromHist(hist)
 \* best epoch: lowest validation metric, ties to the earlier epoch, epoch 0 counts as infinity
@@ -173,5 +190,6 @@ Terminal == Len(hist) = MaxLen \/ Stopped
 Export == (Terminal /\ ~fresh) =>
              Emit([p |-> p, rows |-> hist, conts |-> conts,
                    best |-> [i \in 1..Len(hist) |-> BestOf(SubSeq(hist, 1, i))],
-                   besttrn |-> [i \in 1..Len(hist) |-> BestTrnOf(SubSeq(hist, 1, i))]])
+                   besttrn |-> [i \in 1..Len(hist) |-> BestTrnOf(SubSeq(hist, 1, i))],
+                   ustr |-> [i \in 1..Len(hist) |-> UserStrOf(i, hist[i].val)]])
 =============================================================================
